@@ -166,9 +166,85 @@ def run_name(req):
     raise ValueError(fn)
 
 
+def catalog_names(path):
+    import sqlite3
+    con = sqlite3.connect(path)
+    try:
+        return sorted(r[0] for r in con.execute("select name from sqlite_master where type in ('table','index') and name not like 'sqlite_%'"))
+    finally: con.close()
+
+
+def run_history(h, workdir):
+    """Evolved database on a SQLite file: create with model v1; optionally drop indexes by raw SQL; then
+    generate_mapping(create_tables=True) with model v2 (v1 plus indexes) on the same file.
+    h = {"source_v1", "source_v2", "drop": [positions in the sorted list of droppable indexes]}"""
+    import os, sqlite3, tempfile
+    from pony import orm
+    out = {'outcome': None, 'error': None}
+    fd, path = tempfile.mkstemp(suffix='.sqlite', dir=workdir); os.close(fd); os.remove(path)
+    def open_db(source):
+        db = orm.Database('sqlite', path, create_db=True)
+        ns = {'db': db}
+        for k in ('PrimaryKey', 'Required', 'Optional', 'Set', 'composite_key', 'composite_index', 'Discriminator'): ns[k] = getattr(orm, k)
+        exec(compile(source, '<diagram>', 'exec'), ns)
+        return db
+    try:
+        try:
+            db1 = open_db(h['source_v1'])
+            db1.generate_mapping(create_tables=True)
+            db1.disconnect()
+        except Exception as e:
+            out['outcome'] = 'v1-not-created'; out['error'] = [type(e).__name__, str(e)[:200]]
+            return out
+        out['after_v1'] = catalog_names(path)
+        con = sqlite3.connect(path)
+        droppable = sorted(r[0] for r in con.execute("select name from sqlite_master where type='index' and sql is not null"))
+        dropped = []
+        for i in h.get('drop', []):
+            if droppable:
+                n = droppable[i % len(droppable)]
+                if n not in dropped:
+                    con.execute('DROP INDEX "%s"' % n.replace('"', '""')); dropped.append(n)
+        con.commit(); con.close()
+        out['dropped'] = dropped
+        out['before'] = catalog_names(path)
+        try:
+            db2 = open_db(h['source_v2'])
+            db2.generate_mapping(create_tables=True)
+        except Exception as e:
+            name = type(e).__name__
+            out['outcome'] = 'rejected' if name in PONY_REJECTIONS else 'backend-error'
+            out['error'] = [name, str(e)[:300]]
+            return out
+        sch = db2.schema
+        created = set()
+        lists = []
+        for t in sch.order_tables_to_create():
+            lists.append([[o.typename, o.name if isinstance(o.name, str) else '.'.join(o.name)] for o in t.get_objects_to_create(created)])
+        out['object_lists'] = lists
+        try:
+            db2.check_tables(); out['check_tables'] = 'ok'
+        except Exception as e: out['check_tables'] = '%s: %s' % (type(e).__name__, str(e)[:200])
+        db2.disconnect()
+        out['after'] = catalog_names(path)
+        out['outcome'] = 'ok'
+    except Exception as e:
+        out['outcome'] = 'driver-error'; out['error'] = [type(e).__name__, str(e)[:300]]
+    finally:
+        try: os.remove(path)
+        except OSError: pass
+    return out
+
+
 def main():
+    import tempfile, shutil
     payload = json.load(sys.stdin)
     res = {'cases': [run_case(c) for c in payload.get('cases', [])], 'names': [run_name(r) for r in payload.get('names', [])]}
+    if payload.get('histories'):
+        workdir = tempfile.mkdtemp(prefix='c26-', dir='/tmp')
+        try: res['histories'] = [run_history(h, workdir) for h in payload['histories']]
+        finally: shutil.rmtree(workdir, ignore_errors=True)
+    else: res['histories'] = []
     sys.stdout.write('\n@@JSON@@' + json.dumps(res))
 
 
